@@ -3,6 +3,7 @@ pub mod c10;
 pub mod c11;
 pub mod c12;
 pub mod c05;
+pub mod c13;
 pub mod c14;
 pub mod c15;
 pub mod c16;
@@ -23,6 +24,7 @@ pub fn dispatch(ctx: &Ctx) -> i32 {
         "C11" => c11::run(ctx),
         "C12" => c12::run(ctx),
         "C05" => c05::run(ctx),
+        "C13" => c13::run(ctx),
         "C14" => c14::run(ctx),
         "C15" => c15::run(ctx),
         "C16" => c16::run(ctx),
